@@ -1,5 +1,7 @@
 import Goyang.Lemmas.PositionsSem
 import Goyang.Lemmas.PositionsAst
+import Goyang.Lemmas.Uses
+import Goyang.Gen.AstSchema
 /-
 C16 — reported source positions are the true positions (DESIGN.md 7.16), semantic part:
 "Every file:line:column that appears in an error from building or resolving a module is the start
@@ -31,6 +33,14 @@ theorem plugPositionsOK_iff (reg : Registry) (plug : Plug) : PlugPositionsOK reg
   · rintro ⟨h1, h2, h3⟩
     exact ⟨fun root scope t a b c d e he => posAt_true_of_posOK (h1 root scope t a b c d e he),
       fun e he => posAt_true_of_posOK (h2 e he), fun e he => posAt_true_of_posOK (h3 e he)⟩
+
+/-- A plug that reports no errors (e.g. the placeholder type layer `TypesLite`) satisfies the
+assumption, for every class / statement relation. -/
+theorem errorfree_plug_ok (K : String → Stmt → Prop) (reg : Registry) (plug : Plug)
+    (h1 : ∀ root scope t, (plug.tres.resolve reg root scope t).2 = []) (h2 : plug.identityErrs reg = [])
+    (h3 : plug.typedefErrs reg = []) : PlugPositionsAt K reg plug :=
+  ⟨fun root scope t _ _ _ _ e he => (by rw [h1] at he; cases he), fun e he => (by rw [h2] at he; cases he),
+    fun e he => (by rw [h3] at he; cases he)⟩
 
 /-- Every position that appears in an error returned by `Modules.Process` is the start of a
 statement of a loaded module or submodule — provided the plugged layers (type, identity and
@@ -203,5 +213,109 @@ theorem already_set_unpositioned {tbl : Schema} (s : Ast.Stmt) (p : Option Nat) 
   build_alreadySet_unpositioned s p e hb hc
 
 end AstBuilder
+
+/-- The tag table regenerated from pkg/yang on this run is well-formed (kernel evaluation; the same
+obligation as `Goyang.Props.C03.gen_table_wf`, repeated here so that this file does not depend on
+another property's theorem file). -/
+theorem gen_table_wf : Goyang.Spec.Ast.WF Goyang.Gen.AstSchema.table := by decide +kernel
+
+/-- `build_error_positions` for the regenerated table. -/
+theorem gen_build_error_positions (s : Ast.Stmt) (p : Option Nat) (e : Ast.Err) (pq : Nat × Nat)
+    (hb : Ast.build Goyang.Gen.AstSchema.table s p = .error e) (hpos : e.pos = some pq) :
+    ∃ c, Ast.Within c s ∧ pq = (c.line, c.col) ∧ Ast.Blames Goyang.Gen.AstSchema.table s e.cls c :=
+  build_error_positions gen_table_wf s p e pq hb hpos
+
+/-! ## Non-vacuity: concrete inputs -/
+
+namespace Ex
+
+def st (line col : Nat) (kw arg : String) (subs : List Stmt := []) : Stmt := .mk kw true arg "x.yang" line col subs
+
+/-- `uses nosuch;` at 5:5, a leaf with `config maybe;`, a leaf-list with `max-elements 0;` and
+`ordered-by me;`. -/
+def usesS : Stmt := st 5 5 "uses" "nosuch"
+def leafS : Stmt := st 6 5 "leaf" "x" [st 6 14 "type" "string", st 6 27 "config" "maybe"]
+def llS : Stmt :=
+  st 7 5 "leaf-list" "y" [st 7 19 "type" "string", st 7 32 "max-elements" "0", st 7 48 "ordered-by" "me"]
+def contS : Stmt := st 4 3 "container" "c" [usesS, leafS, llS]
+def modS : Stmt := st 1 1 "module" "a" [st 2 3 "namespace" "urn:a", st 3 3 "prefix" "a", contS]
+/-- the same module without the `uses` statement -/
+def modT : Stmt :=
+  st 1 1 "module" "a" [st 2 3 "namespace" "urn:a", st 3 3 "prefix" "a", st 4 3 "container" "c" [leafS, llS]]
+
+def reg : Registry := (Registry.loadAll [modS]).1
+def regT : Registry := (Registry.loadAll [modT]).1
+def m : Mod := { seq := 0, stmt := modS }
+
+def plug : Plug :=
+  { tres := { resolve := fun _ _ _ t => (some { dump := t.arg }, []) },
+    identityErrs := fun _ => [], typedefErrs := fun _ => [] }
+def env : Env := { reg := reg, tres := plug.tres, linked := [0] }
+
+-- the hypotheses of the resolver theorems are satisfiable (registry with `uses nosuch;`)
+example : PlugPositionsOK reg plug := errorfree_plug_ok _ reg plug (fun _ _ _ => rfl) rfl rfl
+example : PlugPositionsAt Names reg plug := errorfree_plug_ok _ reg plug (fun _ _ _ => rfl) rfl rfl
+example : reg.mods = [m] := rfl
+example : (linkAll reg).1 = [0] := by decide +kernel
+
+-- … and the conclusion is about something: converting the `uses nosuch;` statement of that registry
+-- yields exactly one error, `unknown-group` at 5:5, which is a statement start of the loaded set.
+-- (`String.contains`, which the grouping search uses for "has a prefix", does not reduce in the
+-- kernel, so the search result comes from the binding lemma of the C06 layer and the whole
+-- pipeline is evaluated below on the sibling registry without the `uses`; `#eval` of
+-- `processAll reg {} plug` gives the four errors 5:5, 6:5, 7:32, 7:48.)
+example : toEntry env 21 m [contS, modS] usesS [] {} = (errorEntry m usesS "unknown-group", {}) ∧
+    (errorEntry m usesS "unknown-group").allErrors =
+      [{ file := "x.yang", line := 5, col := 5, cls := "unknown-group" }] :=
+  uses_of_unknown_grouping env 20 m [contS, modS] usesS [] {} rfl
+    ((Goyang.Lemmas.Uses.findGrouping_local reg [0] m [contS] "nosuch" 56 (by decide) (by decide) (by decide)).trans rfl)
+example : StmtPositions reg "x.yang" 5 5 := (allPositions_spec reg _ _ _).1 (by decide +kernel)
+example : ¬ StmtPositions reg "x.yang" 5 6 := fun h => absurd ((allPositions_spec reg _ _ _).2 h) (by decide +kernel)
+
+-- the whole pipeline, evaluated by the kernel independently of the proofs: three positioned errors,
+-- each at the statement its class names, each passing the Boolean check
+example : (processAll regT {} plug).errors.map (fun e => (e.file, e.line, e.col, e.cls)) =
+    [("x.yang", 6, 5, "bad-tristate"), ("x.yang", 7, 32, "bad-max-elements"), ("x.yang", 7, 48, "bad-ordered-by")] := by
+  decide +kernel
+example : (processAll regT {} plug).errors.all (posOKb regT) = true := by decide +kernel
+example : (processAll regT {} plug).errors.all (posOKb regT) = true :=
+  semantic_positions_check regT {} plug (errorfree_plug_ok _ regT plug (fun _ _ _ => rfl) rfl rfl)
+
+-- AST builder, over the regenerated table
+open Goyang.Model.Ast in
+def b (s : String) : Bytes := s.toList.map (fun c => c.toNat.toUInt8)
+def ast (line col : Nat) (kw arg : String) (subs : List Ast.Stmt := []) : Ast.Stmt := .mk (b kw) true (b arg) line col subs
+def report : Except Ast.Err Ast.ANode → Option (Ast.ErrClass × Option (Nat × Nat))
+  | .ok _ => none
+  | .error e => some (e.cls, e.pos)
+abbrev table : Ast.Schema := Goyang.Gen.AstSchema.table
+
+/-- a leaf without `type` at 5:7 -/
+def modBad : Ast.Stmt :=
+  ast 1 1 "module" "m" [ast 2 3 "namespace" "n", ast 3 3 "prefix" "p", ast 4 3 "container" "c" [ast 5 7 "leaf" "l"]]
+
+-- missing required ⇒ the statement that lacks it; unknown field ⇒ the unknown substatement;
+-- already set ⇒ no position; a field mandatory for another keyword only ⇒ the statement itself
+example : report (Ast.build table modBad none) = some (.missing, some (5, 7)) := by decide +kernel
+example : report (Ast.build table (ast 1 1 "module" "m" [ast 2 3 "namespace" "n", ast 3 3 "prefix" "p",
+    ast 4 3 "container" "c" [ast 5 9 "foo" "x"]]) none) = some (.unknownField, some (5, 9)) := by decide +kernel
+example : report (Ast.build table (ast 1 1 "module" "m" [ast 2 3 "namespace" "n", ast 3 3 "prefix" "p",
+    ast 4 3 "namespace" "q"]) none) = some (.alreadySet, none) := by decide +kernel
+example : report (Ast.build table (ast 1 1 "module" "m" [ast 2 3 "namespace" "n", ast 3 3 "prefix" "p",
+    ast 4 3 "belongs-to" "x" [ast 4 20 "prefix" "p"]]) none) = some (.unknownField, some (1, 1)) := by decide +kernel
+
+-- the hypotheses of `build_error_positions` on a concrete input, and its conclusion
+example : ∃ c, Ast.Within c modBad ∧ (5, 7) = (c.line, c.col) ∧ Ast.Blames table modBad .missing c := by
+  have hr : report (Ast.build table modBad none) = some (.missing, some (5, 7)) := by decide +kernel
+  cases hb : Ast.build table modBad none with
+  | ok a => rw [hb] at hr; cases hr
+  | error e =>
+    rw [hb] at hr
+    simp only [report, Option.some.injEq, Prod.mk.injEq] at hr
+    have := gen_build_error_positions modBad none e (5, 7) hb hr.2
+    rw [hr.1] at this
+    exact this
+
+end Ex
 
 end Goyang.Props.C16Sem
